@@ -127,7 +127,7 @@ Lemma gen_convert_to_implication_agree cv ants c t :
   ants <> [] -> R (gen_convert_to_implication cv ants c) t = Some (chain_imp ants c, t).
 Proof.
   revert t. induction ants as [|a ants IH]; intros t H; [contradiction|].
-  cbn [gen_convert_to_implication]. destruct ants as [|b ants].
+  cbn [gen_convert_to_implication]. destruct ants as [|b ants]; cbn [py_nonempty]; cbv iota.
   - Rsimp. reflexivity.
   - Rsimp. rewrite IH by discriminate. Rsimp. reflexivity.
 Qed.
@@ -157,16 +157,15 @@ Proof.
   unfold do. simpl. destruct (irun Proof i (mst t)) as [s'|]; [|discriminate]. intros H. inversion H. eauto.
 Qed.
 
-Lemma gen_do_mp_agree cv t t' : do [OMP] t = Some t' -> R (gen_do_mp cv) t = Some (tt, t').
-Proof.
-  intros H. pose proof H as H0. apply do_one in H0 as [s' [HI _]].
-  destruct t as [[stk mem cl] h o]. simpl in HI.
-  destruct stk as [|[p2|p2] [|[q|q] s]]; try discriminate. destruct q; try discriminate.
-  destruct (pat_eqb q1 p2) eqn:E; [|discriminate].
-  unfold gen_do_mp, i_modus_ponens. Rstep. rewrite !term_eqb_refl'. cbn [andb]. Rstep. rewrite H. Rstep. reflexivity.
-Qed.
+(** generic normaliser for straight-line generated code on a state whose stack shape is known:
+    every read / assert / interpreter call is evaluated; [do] on a concrete state is computed *)
+Ltac Rnorm :=
+  repeat (Rstep; rewrite ?term_eqb_refl'; cbn [andb];
+          unfold i_save, i_pop, i_app, i_implies, i_modus_ponens, i_metavar, i_pattern, i_publish_proof;
+          cbv beta iota zeta).
 
-(** the save/pop loop over the antecedents *)
+(** the save/pop loop over the antecedents, for ANY loop body that, run on a state with a top [x] where
+    [Save; Pop] succeeds, appends [(tt, x)] and reaches the state after [Save; Pop] *)
 Lemma save_loop_agree (body : list (unit * term) -> pat -> M (list (unit * term))) :
   (forall acc p t x t1, top t = Some x -> do [OSave; OPop] t = Some t1 -> R (body acc p) t = Some (acc ++ [(tt, x)], t1)) ->
   forall ants t acc saved t1 gacc,
@@ -181,31 +180,36 @@ Proof.
     + rewrite R_foldM_cons, (HB _ _ _ _ _ T D), E2. rewrite <- app_assoc. reflexivity.
 Qed.
 
-Lemma save_body_agree acc (p:pat) t x t1 :
-  top t = Some x -> do [OSave; OPop] t = Some t1 ->
-  R (t34 <- p_stack_at (- (1))%Z ;; t35 <- p_stack_at (- (1))%Z ;; let v := acc ++ [(tt, t35)] in
-     t36 <- p_stack_at (- (1))%Z ;; t37 <- p_stack_at (- (1))%Z ;; t38 <- i_save t37 ;;
-     t39 <- p_stack_at (- (1))%Z ;; t40 <- i_pop t39 ;; ret v)%gen t = Some (acc ++ [(tt, x)], t1).
-Proof.
-  intros T D. destruct t as [[stk mem cl] h o]. unfold top in T. simpl in T. destruct stk as [|y s]; [discriminate|].
-  inversion T; subst y. change [OSave; OPop] with ([OSave] ++ [OPop]) in D. rewrite do_app in D.
-  destruct (do [OSave] _) as [ta|] eqn:D1; [|discriminate].
-  unfold i_save, i_pop. Rstep. rewrite term_eqb_refl'. Rstep. rewrite D1.
-  pose proof D1 as D1'. apply do_one in D1' as [s' [HI ->]]. simpl in HI. inversion HI; subst s'. clear HI.
-  Rstep. rewrite term_eqb_refl'. Rstep. rewrite D. Rstep. reflexivity.
-Qed.
+(** proves the premise of [save_loop_agree] for whatever straight-line body was generated *)
+Ltac solve_save_body :=
+  let acc := fresh "acc" in let p := fresh "p" in let t0 := fresh "t0" in let x := fresh "x" in let t4 := fresh "t4" in
+  let T0 := fresh "T0" in let D0 := fresh "D0" in
+  intros acc p t0 x t4 T0 D0;
+  destruct t0 as [[stk0 mem0 cl0] h0 o0]; unfold top in T0; cbn [mst stack hd_error] in T0;
+  destruct stk0 as [|y0 s0]; [discriminate|]; inversion T0; subst y0;
+  unfold do in D0; cbn [iruns irun mst stack memory claims set_stack] in D0; inversion D0; subst t4;
+  cbv beta iota zeta;
+  repeat (Rnorm; unfold do; cbn [iruns irun mst stack memory claims heap out set_stack app]; cbv beta iota zeta);
+  rewrite <- ?app_assoc; reflexivity.
 
-(** the load/mp loop *)
-Lemma mp_loop_agree cv xs : forall t t',
-  mp_all xs t = Some t' ->
-  R (foldM (fun (_:unit) '(v_eh, v_pat) => (t48 <- i_load v_pat ;; t52 <- gen_do_mp cv ;; ret tt)%gen)
-           (map (fun x => (tt, x)) xs) tt) t = Some (tt, t').
+(** the load / modus-ponens loop, for ANY loop body that performs [load x; MP] *)
+Lemma mp_loop_agree (body : unit -> unit * term -> M unit) :
+  (forall u x t t1 t2, load_of x t = Some t1 -> do [OMP] t1 = Some t2 -> R (body tt (u, x)) t = Some (tt, t2)) ->
+  forall xs t t', mp_all xs t = Some t' ->
+  R (foldM body (map (fun x => (tt, x)) xs) tt) t = Some (tt, t').
 Proof.
-  induction xs as [|x xs IH]; intros t t' H; simpl in H.
+  intros HB. induction xs as [|x xs IH]; intros t t' H; simpl in H.
   - inversion H; subst. apply R_foldM_nil.
   - destruct (load_of x t) as [t1|] eqn:L; [|discriminate]. destruct (do [OMP] t1) as [t2|] eqn:D; [|discriminate].
-    cbn [map]. rewrite R_foldM_cons. cbv beta iota. Rstep. rewrite L. rewrite R_bind, (gen_do_mp_agree cv _ _ D). Rstep.
-    apply IH. exact H.
+    cbn [map]. rewrite R_foldM_cons, (HB tt x t t1 t2 L D). apply IH. exact H.
+Qed.
+
+Lemma do_mp_shape t t' : do [OMP] t = Some t' ->
+  exists p2 l r s, stack (mst t) = TProved p2 :: TProved (Imp l r) :: s /\ pat_eqb l p2 = true.
+Proof.
+  intros H. apply do_one in H as [s' [HI _]]. cbn [irun] in HI.
+  destruct (stack (mst t)) as [|[p2|p2] [|[q|q] s]]; try discriminate. destruct q; try discriminate.
+  destruct (pat_eqb q1 p2) eqn:E; [|discriminate]. eauto 8.
 Qed.
 
 (** ---- get_delta and the instantiation *)
@@ -377,12 +381,11 @@ Notation sid := (cv_sid cv).
 Hypothesis HAX : forall a, In a (exported d) -> existsb (pat_eqb (axiom_pat d sid a)) axioms = true.
 Hypothesis HND : forall a, NoDup (map (mvid d) (metavars_in_order d a)).
 
-(** the instantiation block shared by the constructor and the axiom branch *)
-Lemma inst_tail_agree l i a x s t t' :
+(** the instantiation shared by the constructor and the axiom branch, as two facts about the two calls *)
+Lemma inst_facts l i a x s t t' :
   find_item d l = Some (i, IAx a) -> stack (mst t) = x :: s -> metavars_in_order d a <> [] ->
   do_inst d a t = Some t' ->
-  R (t22 <- cv_get_metavars_in_order cv l ;; t25 <- gen_get_delta cv t22 ;; t26 <- i_instantiate x t25 ;; ret tt)%gen t
-  = Some (tt, t').
+  exists delta, R (gen_get_delta cv (metavars_in_order d a)) t = Some (delta, t) /\ R (i_instantiate x delta) t = Some (tt, t').
 Proof.
   intros F HS NE D. unfold do_inst, inst_ids in D.
   destruct (map (mvid d) (metavars_in_order d a)) as [|id ids] eqn:EI.
@@ -391,14 +394,16 @@ Proof.
   cbn [irun] in HI. rewrite HS in HI.
   destruct (pop_pats (length (rev (map (mvid d) (metavars_in_order d a)))) s) as [[plugs s2]|] eqn:PP; [|discriminate].
   apply pop_pats_inv in PP as [Es Lp]. rewrite rev_length, map_length in Lp.
-  unfold cv_get_metavars_in_order. rewrite F. Rsimp.
-  rewrite (gen_get_delta_agree cv _ plugs x s2 t); [| rewrite HS, Es; reflexivity | exact Lp | intros v Hv; eapply mio_memN; exact Hv | apply HND].
-  Rsimp. rewrite (i_instantiate_agree x _ plugs s2 t t'); [Rsimp; reflexivity | rewrite HS, Es; reflexivity | rewrite map_length; exact Lp | exact D].
+  eexists. split.
+  - apply (gen_get_delta_agree cv _ plugs x s2 t); [rewrite HS, Es; reflexivity | exact Lp | intros v Hv; eapply mio_memN; exact Hv | apply HND].
+  - apply (i_instantiate_agree x _ plugs s2 t t'); [rewrite HS, Es; reflexivity | rewrite map_length; exact Lp | exact D].
 Qed.
 
-Lemma ltb_len_nonempty {A} (l:list A) : Z.ltb 0 (py_len l) = match l with [] => false | _ => true end.
-Proof. destruct l; [reflexivity|]. unfold py_len. apply Z.ltb_lt. simpl length. lia. Qed.
+Lemma do_inst_nil a t t' : metavars_in_order d a = [] -> do_inst d a t = Some t' -> t' = t.
+Proof. intros E H. unfold do_inst, inst_ids in H. rewrite E in H. simpl in H. inversion H. reflexivity. Qed.
 
+Lemma nonempty_cases {A} (l:list A) : (py_nonempty l = false /\ l = []) \/ (py_nonempty l = true /\ l <> []).
+Proof. destruct l; [left; split; reflexivity | right; split; [reflexivity | discriminate]]. Qed.
 
 Lemma find_item_axiom_in l i a : find_item d l = Some (i, IAx a) -> In (IAx a) d /\ a_label a = l.
 Proof.
@@ -408,6 +413,41 @@ Qed.
 Ltac kind_facts F C :=
   unfold cv_pattern_constructors_has, cv_exported_axioms_has, cv_proof_rules_has, cv_fp_has, cv_kind;
   rewrite ?F, ?C; cbv beta iota.
+
+
+Ltac solve_mp_body :=
+  let u := fresh "u" in let x := fresh "x" in let ta := fresh "ta" in let tb := fresh "tb" in let tc := fresh "tc" in
+  let L := fresh "L" in let D := fresh "D" in
+  intros u x ta tb tc L D;
+  destruct (do_mp_shape _ _ D) as [p2 [l0 [r0 [s0 [ES0 EQ0]]]]];
+  cbv beta iota zeta; repeat (progress (Rnorm; rewrite ?L, ?ES0, ?D)); destruct u; reflexivity.
+
+
+Ltac bin_case H :=
+  match type of H with do _ ?t = Some ?t' =>
+    let H0 := fresh "H0" in let HI := fresh "HI" in let EHp := fresh "EHp" in
+    pose proof H as H0; apply do_one in H0 as [? [HI _]];
+    destruct t as [[stk mem cl] h o]; cbn [irun mst stack] in HI;
+    destruct stk as [|[r|r] [|[l0|l0] s]]; try discriminate;
+    Rnorm; rewrite H; Rnorm;
+    pose proof (do_heap _ _ _ H) as EHp; destruct t' as [m1 h1 o1]; cbn in EHp |- *; subst h1; reflexivity
+  end.
+
+Ltac gen_case F H :=
+  match type of F with find_item _ ?l = Some (?i, IAx ?a) =>
+  match type of H with match do ?E ?t with _ => _ end = Some ?t' =>
+    let t1 := fresh "t1" in let D1 := fresh "D1" in let ES := fresh "ES" in let EH1 := fresh "EH1" in let EH2 := fresh "EH2" in
+    let E1 := fresh "E1" in let E2 := fresh "E2" in let delta := fresh "delta" in let G1 := fresh "G1" in let G2 := fresh "G2" in
+    destruct (do E t) as [t1|] eqn:D1; [|discriminate];
+    pose proof (do_emit_pat _ _ _ (concl_pat_simple _ _ a) D1) as ES;
+    pose proof (do_heap _ _ _ D1) as EH1; pose proof (do_inst_heap _ _ _ _ H) as EH2;
+    unfold cv_get_axiom_by_name; rewrite F; Rnorm; unfold ax_pattern; rewrite D1; Rnorm; unfold ax_metavars;
+    destruct (nonempty_cases (metavars_in_order (cv_d cv) a)) as [[E1 E2]|[E1 E2]]; rewrite E1; cbv iota;
+    [ rewrite (do_inst_nil a t1 t' E2 H); Rnorm; destruct t1 as [m1 h1 o1]; cbn in EH1 |- *; subst h1; reflexivity
+    | destruct (inst_facts l i a _ _ t1 t' F ES E2 H) as [delta [G1 G2]];
+      Rnorm; rewrite ES; Rnorm; unfold cv_get_metavars_in_order; rewrite F; Rnorm; rewrite G1; Rnorm; rewrite G2; Rnorm;
+      destruct t' as [m1 h1 o1]; cbn in EH1, EH2 |- *; subst h1; rewrite EH1; reflexivity ]
+  end end.
 
 (** one iteration of the main loop *)
 Theorem gen_exec_proof_step_agree labels applied t n t' :
@@ -450,97 +490,65 @@ Proof.
   - destruct (find_item_axiom_in _ _ _ F) as [HIn EA].
     destruct (classify a) eqn:C; try discriminate.
     + kind_facts F C. unfold ctor_step in H. rewrite EA in H.
-      assert (GEN: forall (Hg : match do (emit_pat (concl_pat d sid a)) t with Some t1 => do_inst d a t1 | None => None end = Some t'),
-        R (t19 <- cv_get_axiom_by_name cv l ;; let v_pca := t19 in t20 <- i_pattern (ax_pattern cv v_pca) ;;
-           (if (Z.ltb (0)%Z (py_len (ax_metavars cv v_pca))) then (t21 <- p_stack_at (- (1)%Z)%Z ;; let v_pat := t21 in py_assert (is_pattern v_pat) ;;; t22 <- cv_get_metavars_in_order cv l ;; t25 <- gen_get_delta cv t22 ;; t26 <- i_instantiate v_pat t25 ;; ret tt) else (ret tt)) ;;; ret (heap t))%gen t
-        = Some (heap t', mkT (mst t') (heap t) (out t'))).
-      { intros Hg. destruct (do (emit_pat (concl_pat d sid a)) t) as [t1|] eqn:D1; [|discriminate].
-        rewrite R_bind. unfold cv_get_axiom_by_name at 1. rewrite F, R_lift. cbv beta iota zeta.
-        rewrite R_bind. unfold i_pattern, ax_pattern. rewrite R_gdo, D1. cbv beta iota.
-        rewrite R_bind. rewrite ltb_len_nonempty. unfold ax_metavars.
-        pose proof (do_emit_pat _ _ _ (concl_pat_simple d sid a) D1) as ES.
-        pose proof (do_heap _ _ _ D1) as EH1. pose proof (do_inst_heap _ _ _ _ Hg) as EH2.
-        destruct (metavars_in_order d a) as [|v0 vs] eqn:EM.
-        - unfold do_inst, inst_ids in Hg. rewrite EM in Hg. simpl in Hg. inversion Hg; subst t1. repeat (rewrite R_ret; cbv beta iota).
-          destruct t' as [m1 h1 o1]. cbn in EH1 |- *. subst h1. reflexivity.
-        - rewrite R_bind, R_stack_m1, ES. cbn [nth_error]. cbv beta iota zeta. rewrite R_bind, R_assert. cbn [is_pattern]. cbv iota.
-          rewrite (inst_tail_agree l i a _ _ t1 t' F ES); [| rewrite EM; discriminate | exact Hg].
-          cbv beta iota. repeat (rewrite R_ret; cbv beta iota). destruct t' as [m1 h1 o1]. cbn in EH1, EH2 |- *. subst h1. rewrite EH1. reflexivity. }
-      destruct l; cbn [label_eqb]; cbv iota; try (apply GEN; exact H).
-      * pose proof H as H0. apply do_one in H0 as [s' [HI _]]. destruct t as [[stk mem cl] h o]. cbn [irun mst stack] in HI.
-        destruct stk as [|[r|r] [|[l0|l0] s]]; try discriminate.
-        unfold i_implies. Rstep. rewrite !term_eqb_refl'. cbn [andb]. Rstep. rewrite H. Rstep.
-        pose proof (do_heap _ _ _ H) as EHp. destruct t' as [m1 h1 o1]. cbn in EHp |- *. subst h1. reflexivity.
-      * pose proof H as H0. apply do_one in H0 as [s' [HI _]]. destruct t as [[stk mem cl] h o]. cbn [irun mst stack] in HI.
-        destruct stk as [|[r|r] [|[l0|l0] s]]; try discriminate.
-        unfold i_app. Rstep. rewrite !term_eqb_refl'. cbn [andb]. Rstep. rewrite H. Rstep.
-        pose proof (do_heap _ _ _ H) as EHp. destruct t' as [m1 h1 o1]. cbn in EHp |- *. subst h1. reflexivity.
+      destruct l; cbn [label_eqb]; cbv iota; first [ solve [bin_case H] | solve [gen_case F H] ].
     + kind_facts F C. unfold ctor_step in H. rewrite EA in H.
-      assert (GEN: forall (Hg : match do (emit_pat (concl_pat d sid a)) t with Some t1 => do_inst d a t1 | None => None end = Some t'),
-        R (t19 <- cv_get_axiom_by_name cv l ;; let v_pca := t19 in t20 <- i_pattern (ax_pattern cv v_pca) ;;
-           (if (Z.ltb (0)%Z (py_len (ax_metavars cv v_pca))) then (t21 <- p_stack_at (- (1)%Z)%Z ;; let v_pat := t21 in py_assert (is_pattern v_pat) ;;; t22 <- cv_get_metavars_in_order cv l ;; t25 <- gen_get_delta cv t22 ;; t26 <- i_instantiate v_pat t25 ;; ret tt) else (ret tt)) ;;; ret (heap t))%gen t
-        = Some (heap t', mkT (mst t') (heap t) (out t'))).
-      { intros Hg. destruct (do (emit_pat (concl_pat d sid a)) t) as [t1|] eqn:D1; [|discriminate].
-        rewrite R_bind. unfold cv_get_axiom_by_name at 1. rewrite F, R_lift. cbv beta iota zeta.
-        rewrite R_bind. unfold i_pattern, ax_pattern. rewrite R_gdo, D1. cbv beta iota.
-        rewrite R_bind. rewrite ltb_len_nonempty. unfold ax_metavars.
-        pose proof (do_emit_pat _ _ _ (concl_pat_simple d sid a) D1) as ES.
-        pose proof (do_heap _ _ _ D1) as EH1. pose proof (do_inst_heap _ _ _ _ Hg) as EH2.
-        destruct (metavars_in_order d a) as [|v0 vs] eqn:EM.
-        - unfold do_inst, inst_ids in Hg. rewrite EM in Hg. simpl in Hg. inversion Hg; subst t1. repeat (rewrite R_ret; cbv beta iota).
-          destruct t' as [m1 h1 o1]. cbn in EH1 |- *. subst h1. reflexivity.
-        - rewrite R_bind, R_stack_m1, ES. cbn [nth_error]. cbv beta iota zeta. rewrite R_bind, R_assert. cbn [is_pattern]. cbv iota.
-          rewrite (inst_tail_agree l i a _ _ t1 t' F ES); [| rewrite EM; discriminate | exact Hg].
-          cbv beta iota. repeat (rewrite R_ret; cbv beta iota). destruct t' as [m1 h1 o1]. cbn in EH1, EH2 |- *. subst h1. rewrite EH1. reflexivity. }
-      destruct l; cbn [label_eqb]; cbv iota; try (apply GEN; exact H).
-      * pose proof H as H0. apply do_one in H0 as [s' [HI _]]. destruct t as [[stk mem cl] h o]. cbn [irun mst stack] in HI.
-        destruct stk as [|[r|r] [|[l0|l0] s]]; try discriminate.
-        unfold i_implies. Rstep. rewrite !term_eqb_refl'. cbn [andb]. Rstep. rewrite H. Rstep.
-        pose proof (do_heap _ _ _ H) as EHp. destruct t' as [m1 h1 o1]. cbn in EHp |- *. subst h1. reflexivity.
-      * pose proof H as H0. apply do_one in H0 as [s' [HI _]]. destruct t as [[stk mem cl] h o]. cbn [irun mst stack] in HI.
-        destruct stk as [|[r|r] [|[l0|l0] s]]; try discriminate.
-        unfold i_app. Rstep. rewrite !term_eqb_refl'. cbn [andb]. Rstep. rewrite H. Rstep.
-        pose proof (do_heap _ _ _ H) as EHp. destruct t' as [m1 h1 o1]. cbn in EHp |- *. subst h1. reflexivity.
-    + kind_facts F C. rewrite R_bind, R_ret. cbv beta iota.
+      destruct l; cbn [label_eqb]; cbv iota; first [ solve [bin_case H] | solve [gen_case F H] ].
+    + (* axiom or rule of Gamma *)
+      kind_facts F C. rewrite R_bind, R_ret. cbv beta iota.
       unfold ax_step in H.
       destruct (save_pops (length (a_ess a)) t []) as [[saved t1]|] eqn:SP; [|discriminate].
       destruct (load_of (TProved (axiom_pat d sid a)) t1) as [t2|] eqn:LD; [|discriminate].
       destruct (do_inst d a t2) as [t3|] eqn:DI; [|discriminate].
       pose proof (save_pops_heap _ _ _ _ _ SP) as EH1. pose proof (do_heap_load _ _ _ LD) as EH2.
       pose proof (do_inst_heap _ _ _ _ DI) as EH3. pose proof (mp_all_heap _ _ _ H) as EH4.
+      pose proof (load_of_stack _ _ _ LD) as ES.
       assert (HEX: existsb (pat_eqb (axiom_pat d sid a)) axioms = true) by (apply HAX; apply exported_in; assumption).
-      assert (INST: R (if (Z.ltb (0)%Z (py_len (ax_metavars cv a))) then (t44 <- p_stack_at (- (1)%Z)%Z ;; py_assert (is_proved t44) ;;; t45 <- cv_get_metavars_in_order cv l ;; t46 <- gen_get_delta cv t45 ;; i_instantiate t44 t46 ;;; ret tt) else (ret tt))%gen t2 = Some (tt, t3)).
-      { rewrite ltb_len_nonempty. unfold ax_metavars. pose proof (load_of_stack _ _ _ LD) as ES.
-        destruct (metavars_in_order d a) as [|v0 vs] eqn:EM.
-        - unfold do_inst, inst_ids in DI. rewrite EM in DI. simpl in DI. inversion DI; subst t3. apply R_ret.
-        - rewrite R_bind, R_stack_m1, ES. cbn [nth_error]. cbv beta iota zeta. rewrite R_bind, R_assert. cbn [is_proved]. cbv iota.
-          apply (inst_tail_agree l i a _ _ t2 t3 F ES); [rewrite EM; discriminate | exact DI]. }
-      rewrite R_bind, R_bind, R_bind. unfold cv_get_axiom_by_name at 1. rewrite F, R_lift. cbv beta iota zeta.
-      rewrite R_bind. unfold ax_has_antecedents. unfold axiom_pat in LD, HEX. unfold ax_antecedents, ax_pattern.
+      (* what the instantiation part does on t2, whatever surrounds it *)
+      assert (INST: (py_nonempty (metavars_in_order d a) = false /\ t3 = t2) \/
+                    (py_nonempty (metavars_in_order d a) = true /\
+                     exists delta, R (gen_get_delta cv (metavars_in_order d a)) t2 = Some (delta, t2) /\
+                                   R (i_instantiate (TProved (axiom_pat d sid a)) delta) t2 = Some (tt, t3))).
+      { destruct (nonempty_cases (metavars_in_order d a)) as [[E1 E2]|[E1 E2]].
+        - left. split; [exact E1 | eapply do_inst_nil; eassumption].
+        - right. split; [exact E1|]. eapply inst_facts; eassumption. }
+      rewrite R_bind. unfold cv_get_axiom_by_name at 1. rewrite F, R_lift. cbv beta iota zeta.
+      rewrite R_bind. unfold ax_has_antecedents, ax_antecedents, ax_pattern, ax_metavars.
+      unfold axiom_pat in LD, HEX, ES, INST.
       destruct (a_ess a) as [|e es] eqn:EE.
       * (* no essential hypotheses *)
         simpl in SP. inversion SP; subst saved t1. clear SP.
-        unfold ants_pat in LD, HEX. rewrite EE in LD, HEX. simpl in LD, HEX.
-        rewrite R_bind. unfold p_load_axiom. rewrite R_bind, R_assert, HEX. cbv iota. rewrite R_i_load, LD. cbv beta iota.
-        rewrite R_ret. cbv beta iota. rewrite R_bind, INST. cbv beta iota.
-        rewrite R_bind, R_ret. cbv beta iota. repeat (rewrite R_ret; cbv beta iota).
-        simpl in H. inversion H; subst t'. destruct t3 as [m1 h1 o1]. cbn in EH2, EH3 |- *. subst h1. rewrite EH2. reflexivity.
+        unfold ants_pat in LD, HEX, ES, INST. rewrite EE in LD, HEX, ES, INST. simpl in LD, HEX, ES, INST.
+        unfold p_load_axiom. Rnorm. rewrite HEX. Rnorm. rewrite LD. Rnorm.
+        simpl in H. inversion H; subst t'.
+        destruct INST as [[E1 ->]|[E1 [delta [G1 G2]]]]; rewrite E1; cbv iota.
+        -- Rnorm. destruct t2 as [m1 h1 o1]. cbn in EH2 |- *. subst h1. reflexivity.
+        -- Rnorm. rewrite ES. Rnorm. unfold cv_get_metavars_in_order. rewrite F. Rnorm. rewrite G1. Rnorm. rewrite G2. Rnorm.
+           destruct t3 as [m1 h1 o1]. cbn in EH2, EH3 |- *. subst h1. rewrite EH2. reflexivity.
       * (* essential hypotheses: save/pop each, load the implication chain, instantiate, load + mp each *)
         assert (LA: length (ants_pat d sid a) = length (e :: es)) by (unfold ants_pat; rewrite EE; apply map_length).
-        rewrite <- LA in SP. rewrite R_bind.
+        rewrite <- LA in SP. cbv iota. rewrite R_bind.
         match goal with |- context [foldM ?f (ants_pat d sid a) []] => set (body := f) end.
         assert (HB: forall acc p t0 x t4, top t0 = Some x -> do [OSave; OPop] t0 = Some t4 -> R (body acc p) t0 = Some (acc ++ [(tt, x)], t4)).
-        { intros acc p t0 x t4 T0 D0. exact (save_body_agree acc p t0 x t4 T0 D0). }
+        { unfold body. solve_save_body. }
         destruct (save_loop_agree body HB (ants_pat d sid a) t [] saved t1 [] SP) as [new [E1 E2]].
         rewrite E2. cbv beta iota. simpl app in E1. subst saved. simpl app.
         assert (NE: ants_pat d sid a <> []) by (unfold ants_pat; rewrite EE; discriminate).
         rewrite R_bind, (gen_convert_to_implication_agree cv _ _ t1 NE). cbv beta iota.
-        rewrite R_bind. unfold p_load_axiom. rewrite R_bind, R_assert, HEX. cbv iota. rewrite R_i_load, LD. cbv beta iota.
-        rewrite R_ret. cbv beta iota. rewrite R_bind, INST. cbv beta iota.
-        rewrite R_bind, R_bind. rewrite <- map_rev. rewrite (mp_loop_agree cv (rev new) t3 t' H). cbv beta iota.
-        repeat (rewrite R_ret; cbv beta iota).
-        destruct t' as [m1 h1 o1]. cbn in EH4 |- *. subst h1. rewrite EH3, EH2, EH1. reflexivity.
-    + kind_facts F C. rewrite R_bind, R_ret. cbv beta iota.
+        unfold p_load_axiom. Rnorm. rewrite HEX. Rnorm. rewrite LD. Rnorm.
+        assert (MPL: forall (body2 : unit -> unit * term -> M unit),
+                  (forall u x ta tb tc, load_of x ta = Some tb -> do [OMP] tb = Some tc -> R (body2 tt (u, x)) ta = Some (tt, tc)) ->
+                  R (foldM body2 (rev (map (fun x => (tt, x)) new)) tt) t3 = Some (tt, t')).
+        { intros body2 HB2. rewrite <- map_rev. exact (mp_loop_agree body2 HB2 (rev new) t3 t' H). }
+        destruct INST as [[E1 ->]|[E1 [delta [G1 G2]]]]; rewrite E1; cbv iota.
+        -- Rnorm. match goal with |- context [foldM ?f (rev _) tt] => rewrite (MPL f) end.
+           ++ Rnorm. destruct t' as [m1 h1' o1']. cbn in EH4 |- *. subst h1'. rewrite EH2, EH1. reflexivity.
+           ++ solve_mp_body.
+        -- Rnorm. rewrite ES. Rnorm. unfold cv_get_metavars_in_order. rewrite F. Rnorm. rewrite G1. Rnorm. rewrite G2. Rnorm.
+           match goal with |- context [foldM ?f (rev _) tt] => rewrite (MPL f) end.
+           ++ Rnorm. destruct t' as [m1 h1' o1']. cbn in EH4 |- *. subst h1'. rewrite EH3, EH2, EH1. reflexivity.
+           ++ solve_mp_body.
+    + (* the three fixed proof rules *)
+      kind_facts F C. rewrite R_bind, R_ret. cbv beta iota.
       destruct l; cbn [label_eqb rule_step] in H |- *; cbv iota;
         try (inversion H; subst t'; Rsimp; destruct t as [m1 h1 o1]; reflexivity).
       * (* prop-1 *)
@@ -571,19 +579,20 @@ Proof.
         unfold mp_step in H. destruct (do [OMP] t) as [t1|] eqn:D1; [|discriminate].
         destruct (top t1) as [c|] eqn:T1; [|discriminate].
         destruct (do [OSave; OPop; OPop; OPop] t1) as [t2|] eqn:D2; [|discriminate].
-        Rsimp. rewrite (gen_do_mp_agree cv _ _ D1). cbv beta iota.
-        pose proof (do_heap _ _ _ D1) as EH1. pose proof (do_heap _ _ _ D2) as EH2. pose proof (do_heap_load _ _ _ H) as EH3.
-        destruct t1 as [[stk1 mem1 cl1] h1 o1]. unfold top in T1. cbn [mst stack hd_error] in T1.
-        unfold do in D2. cbn [iruns irun mst stack] in D2.
-        destruct stk1 as [|c0 [|a0 [|b0 s0]]]; try discriminate. inversion T1; subst c0. clear T1.
+        pose proof (do_heap _ _ _ D1) as EH1. pose proof (do_heap_load _ _ _ H) as EH3.
+        destruct t as [[stk mem cl] h o].
+        pose proof D1 as D1'. apply do_one in D1' as [s1 [HI1 Et1]]. cbn [irun mst stack] in HI1.
+        destruct stk as [|[p2|p2] [|[q|q] stk]]; try discriminate. destruct q; try discriminate.
+        destruct (pat_eqb q1 p2) eqn:EQ; [|discriminate]. inversion HI1; subst s1. clear HI1. subst t1.
+        unfold top in T1. cbn [mst stack hd_error set_stack] in T1. inversion T1; subst c. clear T1.
+        unfold do in D2. cbn [iruns irun mst stack memory claims set_stack] in D2.
+        destruct stk as [|a0 [|b0 s0]]; try discriminate.
         cbn [iruns irun mst stack memory claims set_stack] in D2. inversion D2; subst t2. clear D2.
-        unfold i_save, i_pop.
-        repeat (Rstep; rewrite ?term_eqb_refl'; unfold do; cbn [iruns irun mst stack memory claims heap out push set_stack app]; cbv beta iota zeta).
-        cbn [heap] in EH1, EH3.
-        match type of H with load_of c ?st = _ => match goal with |- context [load_of c ?st2] =>
-          replace st2 with st by (cbn [set_stack stack memory claims]; rewrite <- ?app_assoc; reflexivity) end end.
+        repeat (Rnorm; rewrite ?EQ; unfold do; cbn [iruns irun mst stack memory claims heap out push set_stack app]; rewrite ?EQ; cbv beta iota zeta).
+        match type of H with load_of ?c ?st = _ => match goal with |- context [load_of c ?st2] =>
+          replace st2 with st by (cbn [set_stack stack memory claims mst heap out]; rewrite <- ?app_assoc; reflexivity) end end.
         rewrite H. Rsimp.
-        destruct t' as [m1 h1' o1']. cbn in EH3 |- *. subst h1'. rewrite EH1. reflexivity.
+        destruct t' as [m1 h1' o1']. cbn in EH3 |- *. subst h1'. reflexivity.
 Qed.
 
 End Agree.
